@@ -532,7 +532,7 @@ class SimpleHeatPumpCycle:
         # Assemble the 3-point polyline: [H, T]
         evaporator_profile = np.array([
             [H[3], T[3]],            # inlet
-            [h_sat_vapor, T_sat_vapor],
+            [h_sat_vapor, T_sat_vapor] if h_sat_vapor > H[3] else [H[3], T[3]],
             [H[0], T[0]],            # superheated outlet
         ], dtype=float)
     
